@@ -477,6 +477,76 @@ def sc_index_from_helper(need_present=False):
     return f
 
 
+def sc_trun_present(eng, fid, fn, it, ob):
+    """`<traf>.trun.as_ref().unwrap()` where <traf> is the element of self.trafs at the index find_traf_idx_and_sample_idx
+    returned (that helper only returns indices of fragments whose run is present): either indexed right here, or handed in
+    by every caller as `&self.trafs[idx]` with such an idx."""
+    import lookup_post
+    r = lookup_post.check(eng.fx, "find_traf_idx_and_sample_idx")
+    if not (r["ok"] and r["present"]):
+        return False, "find_traf_idx_and_sample_idx no longer guarantees a present run (%s)" % r["why"]
+    body = it.body
+    t = body.term(ob["block"])
+    opt = op_place(t["args"][0]) if t.get("args") else None
+
+    def traf_origin(b_, pl, depth=0):
+        """('index', idx operand) | ('param', n) | None for the TrafBox the place lies in"""
+        for _ in range(10):
+            if pl is None:
+                return None
+            l = pl["l"]
+            if 1 <= l <= b_.argc and "TrafBox" in b_.locals[l]["ty"]:
+                return ("param", l)
+            ds = b_.defs().get(l, [])
+            if len(ds) != 1:
+                return None
+            kind, payload = ds[0][2], ds[0][3]
+            if kind == "call":
+                tail = (payload["callee"].get("path") or "").split("::")[-1]
+                if tail in ("as_ref", "as_mut", "deref", "borrow", "as_deref") and payload["args"]:
+                    pl = op_place(payload["args"][0])
+                    continue
+                if tail in ("index", "get_unchecked") and len(payload["args"]) == 2 and b_.canon_op(payload["args"][0]) in ("$1.trafs", "&$1.trafs"):
+                    return ("index", payload["args"][1])
+                return None
+            if kind == "assign" and payload["k"] == "ref":
+                pl = payload["place"]
+                continue
+            if kind == "assign" and payload["k"] in ("use", "cast"):
+                pl = op_place(payload["a"])
+                continue
+            return None
+        return None
+    org = traf_origin(body, opt)
+    if org is None:
+        return False, "the unwrapped run does not belong to an element of self.trafs the rule can follow"
+    sites = []
+    if org[0] == "index":
+        sites.append((body, org[1]))
+    else:
+        for caller in sorted(eng.cg.callers_of(fid)):
+            cb = body_of(eng.fx.fns[caller])
+            if cb is None:
+                continue
+            for b2, t2 in cb.calls():
+                if callee_path(t2["callee"]) != fid or org[1] - 1 >= len(t2["args"]):
+                    continue
+                o2 = traf_origin(cb, op_place(t2["args"][org[1] - 1]))
+                if o2 is None or o2[0] != "index":
+                    return False, "%s hands in a fragment that is not self.trafs[idx]" % fn_short(caller)
+                sites.append((cb, o2[1]))
+        if not sites:
+            return False, "no caller found"
+    for b_, idx in sites:
+        call, projs = _index_origin(b_, idx)
+        if call is None or not (callee_path(call["callee"]) or "").endswith("find_traf_idx_and_sample_idx"):
+            return False, "the fragment index does not come from find_traf_idx_and_sample_idx"
+        flds = tuple(p["f"] for p in projs if isinstance(p, dict) and "f" in p)
+        if flds != ("0", "0"):
+            return False, "the fragment index is not the position component of the search result"
+    return True, "the fragment is self.trafs[idx] with idx from find_traf_idx_and_sample_idx, which returns only fragments whose run is present (%d site(s))" % len(sites)
+
+
 def sc_both(a, b):
     def f(eng, fid, fn, it, ob):
         ok1, w1 = a(eng, fid, fn, it, ob)
@@ -527,7 +597,7 @@ ACCEPTED = [
      "reason": "the index is the fragment position returned by find_traf_idx_and_sample_idx, which walks self.trafs"},
     {"match": lambda fid, fn, ob, key: key.startswith("Mp4Track::") and "|index:index|self.moof_offsets, " in key, "side": sc_both(sc_lockstep_pushes, sc_index_from_helper()),
      "reason": "moof_offsets has the same length as trafs"},
-    {"match": K("Mp4Track::sample_size|unwrap_opt:unwrap|Option::as_ref(Index::index(self.trafs, traf_idx).trun)"), "side": sc_helper_index("find_traf_idx_and_sample_idx", need_present=True),
+    {"match": lambda fid, fn, ob, key: key.startswith("Mp4Track::") and "|unwrap_opt:unwrap|Option::as_ref(" in key and key.rstrip(")").endswith(".trun"), "side": sc_trun_present,
      "reason": "find_traf_idx_and_sample_idx only returns indices of fragments whose trun is Some"},
     {"match": K("Mp4Track::sample_offset|Overflow(Sub)|sample_id, sample_idx as u32"), "side": sc_trusted("find_traf postcondition"),
      "reason": "sample_idx = global_idx - offset <= sample_id - 1"},
